@@ -9,7 +9,7 @@
 From Coq Require Import List String ZArith NArith.
 Import ListNotations.
 From Anthem Require Import Syntax.Fol Gen.TablesFol Model.FolPrint Model.FolLex Model.FolPratt Model.FolParse Model.FolClass
-  Proofs.FolPrattOk Proofs.FolTermRT Proofs.FolFormulaRT Proofs.FolRoundTrip Proofs.FolTopRT Proofs.FolStrip Proofs.FolC15.
+  Proofs.FolPrattOk Proofs.FolTermRT Proofs.FolFormulaRT Proofs.FolRoundTrip Proofs.FolTopRT Proofs.FolStrip Proofs.FolC15 Proofs.FolImage.
 Open Scope string_scope.
 
 (* ---------- round trip ---------- *)
@@ -144,6 +144,45 @@ Theorem C15_tables_agree_term :
   fmt_iterm_assoc KNeg = Some ALeft.
 Proof. exact tables_agree_term. Qed.
 Print Assumptions C15_tables_agree_term.
+
+(* ---------- the image of the parser ---------- *)
+(* everything the parser model accepts (lexer included) is well-formed: names of the right lexical class,
+   non-empty guard and binder lists, numerals in isize, arities in usize - so the hypothesis [wf] of the
+   round-trip theorems holds for every tree in the image of the parser *)
+Theorem C15_image_theory : forall (s : string) (t : theory), parse_theory_str s = PR_ok t -> wf_theory t = true.
+Proof. exact image_theory_str. Qed.
+Print Assumptions C15_image_theory.
+Theorem C15_image_specification : forall (s : string) (t : specification), parse_spec_str s = PR_ok t -> wf_spec t = true.
+Proof. exact image_spec_str. Qed.
+Print Assumptions C15_image_specification.
+Theorem C15_image_user_guide : forall (s : string) (t : user_guide), parse_ug_str s = PR_ok t -> wf_ug t = true.
+Proof. exact image_ug_str. Qed.
+Print Assumptions C15_image_user_guide.
+(* token level, for any token list whose names have the right lexical class *)
+Theorem C15_image_tokens :
+  forall (ts : list token) (t : theory), toks_ok ts -> parse_theory_toks ts = PR_ok t -> wf_theory t = true.
+Proof. exact image_theory. Qed.
+Print Assumptions C15_image_tokens.
+Theorem C15_lex_classes : forall (s : string) (ts : list token), lex s = Some ts -> toks_ok ts.
+Proof. exact lex_toks_ok. Qed.
+Print Assumptions C15_lex_classes.
+
+(* C15 on the image of the parser *)
+Theorem C15_parsed_theory :
+  forall (s : string) (t : theory), parse_theory_str s = PR_ok t -> known_class_theory t = None ->
+  parse_theory_toks (strip (print_theory true t)) = PR_ok t.
+Proof. exact parsed_theory_rt. Qed.
+Print Assumptions C15_parsed_theory.
+Theorem C15_parsed_specification :
+  forall (s : string) (t : specification), parse_spec_str s = PR_ok t -> known_class_spec t = None ->
+  parse_spec_toks (strip (print_spec true t)) = PR_ok t.
+Proof. exact parsed_spec_rt. Qed.
+Print Assumptions C15_parsed_specification.
+Theorem C15_parsed_user_guide :
+  forall (s : string) (t : user_guide), parse_ug_str s = PR_ok t -> known_class_ug t = None ->
+  parse_ug_toks (strip (print_ug true t)) = PR_ok t.
+Proof. exact parsed_ug_rt. Qed.
+Print Assumptions C15_parsed_user_guide.
 
 (* ---------- non-vacuity and witnesses (vm_compute on the executable models) ---------- *)
 Definition ex_text : string :=
